@@ -481,3 +481,65 @@ pub fn h_set<const N: usize>(which: u8, w: bool) {
     all_dead_except(0);
     kani::cover!(present || N == 0, "reached");
 }
+
+/// Derived methods (nth, last, count, fold) of the consuming iterators and of drain:
+/// every element is still destroyed exactly once, and while user code runs inside
+/// `fold` the iterator's own map is droppable.
+/// which: 0 into_iter 1 into_keys 2 into_values 3 drain ; op: 0 nth 1 last 2 count 3 fold
+pub fn h_consume_derived<const N: usize>(which: u8, op: u8, w: bool) {
+    let mut m = any_tok_map::<N>();
+    let j: usize = kani::any();
+    kani::assume(j <= N);
+    macro_rules! go {
+        ($it:expr, $watch:expr) => {{
+            let mut it = $it;
+            if w {
+                $watch(&it);
+            }
+            match op {
+                0 => {
+                    drop(it.nth(j));
+                    drop(it.next());
+                    drop(it);
+                }
+                1 => drop(it.last()),
+                2 => {
+                    let _ = it.count();
+                }
+                _ => {
+                    it.fold((), |_, x| {
+                        // the item now belongs to user code: destroy it, then see
+                        // whether a panic right here would leave a droppable container
+                        drop(x);
+                        monitor();
+                    });
+                }
+            }
+            unwatch(0);
+        }};
+    }
+    match which {
+        0 => go!(m.into_iter(), |it: &crate::IntoIter<Tok, Tok, N>| watch(0, &it.map)),
+        1 => go!(m.into_keys(), |_it: &crate::IntoKeys<Tok, Tok, N>| ()),
+        2 => go!(m.into_values(), |_it: &crate::IntoValues<Tok, Tok, N>| ()),
+        _ => {
+            go!(m.drain(), |_it: &crate::Drain<'_, Tok, Tok>| ());
+            assert!(m.len == 0, "C10.drain: empty afterwards");
+            drop(m);
+        }
+    }
+    all_dead_except(0);
+    kani::cover!(true, "reached");
+}
+
+/// clone_from on tokens: the destination's old elements die exactly once, the source is untouched
+pub fn h_clone_from<const N: usize>() {
+    let src = any_tok_map::<N>();
+    let mut dst = any_tok_map::<N>();
+    dst.clone_from(&src);
+    assert!(tok_wf(&dst) && dst.len == src.len && tok_wf(&src), "C15.clone_from: destination well-formed with the source's len");
+    drop(dst);
+    drop(src);
+    all_dead_except(0);
+    kani::cover!(true, "reached");
+}
